@@ -21,21 +21,21 @@ fi
 go build ./... || { echo "RESULT $NAME: does not build"; exit 1; }
 SUITE=$(go test -vet=off -count=1 ./... 2>&1 | grep -v "no test files")
 if echo "$SUITE" | grep -q "^FAIL\|^---\|panic"; then echo "$SUITE" | tail -20; echo "RESULT $NAME: existing suite fails with the change"; exit 1; fi
-cp $DEMO $WT/$DEST/
-WITH=$(go test -vet=off -count=1 -run "$RUN" ./$DEST/ 2>&1); WRC=$?
+mkdir -p $WT/$DEST; cp $SRC/*_test.go $WT/$DEST/
+WITH=$(go test ${SEED_TEST_FLAGS:-} -vet=off -count=1 -run "$RUN" ./$DEST/ 2>&1); WRC=$?
 git apply -R $WT/.rebased.diff
-WITHOUT=$(go test -vet=off -count=1 -run "$RUN" ./$DEST/ 2>&1); WORC=$?
+WITHOUT=$(go test ${SEED_TEST_FLAGS:-} -vet=off -count=1 -run "$RUN" ./$DEST/ 2>&1); WORC=$?
 echo "demo with change rc=$WRC ; without rc=$WORC"
 if [ $WRC -eq 0 ] || [ $WORC -ne 0 ]; then echo "$WITH" | tail -5; echo "$WITHOUT" | tail -5; echo "RESULT $NAME: demo does not discriminate"; exit 1; fi
 mkdir -p /verif/seeded/$NAME
 cp $WT/.rebased.diff /verif/seeded/$NAME/patch.diff
-cp $DEMO /verif/seeded/$NAME/
+cp $SRC/*_test.go /verif/seeded/$NAME/
 [ -f $SRC/NOTES.md ] && cp $SRC/NOTES.md /verif/seeded/$NAME/NOTES.md
 python3 - "$NAME" "$PROP" "$DEST" "$RUN" "$NEEDS" "$(basename $DEMO)" "$(git -C /repo rev-parse --short HEAD)" <<'PY'
 import json,sys
 name,prop,dest,run,needs,demo,head=sys.argv[1:8]
 json.dump({"property":prop,"origin":"independent sub-agent given only the property text and a scratch worktree","needs_to_manifest":needs,
- "demo":{"file":demo,"place_in":dest,"command":"go test -vet=off -count=1 -run '%s' ./%s/"%(run,dest)},
+ "demo":{"file":demo,"place_in":dest,"command":"go test %s -vet=off -count=1 -run '%s' ./%s/"%(__import__('os').environ.get('SEED_TEST_FLAGS',''),run,dest)},
  "confirmed":{"against_repo_commit":head,"builds":True,"existing_suite_passes_with_change":True,"demo_fails_with_change":True,"demo_passes_without_change":True,
    "how":"lib/confirm_seed.sh in a scratch worktree under /var/tmp (removed afterwards)"},
  "detected_by":[prop],"tier":"quick"}, open('/verif/seeded/%s/meta.json'%name,'w'), indent=1)
